@@ -1395,284 +1395,292 @@ def template_input(inputfile, dumpfile, flux=False, verbose=False):
     if verbose:
         log.setLevel('DEBUG')
     #
-    # Read metadata.
+    # template_metadata() sets RUN2D and RUN1D from the parameter file.
+    # Remember what they are now, so that they can be put back whatever happens.
     #
-    slist, metadata = template_metadata(inputfile)
-    #
-    # Name the output files.
-    #
-    jd = get_juldate()
-    outfile = "spEigen{0}-{1:d}".format(metadata['object'].title(), int(jd - 2400000.5))
-    #
-    # Read the input spectra
-    #
-    if os.path.exists(dumpfile):
-        log.info("Loading data from %s." % (dumpfile,))
-        with open(dumpfile, 'rb') as f:
-            inputflux = pickle.load(f)
-        newflux = inputflux['newflux']
-        newivar = inputflux['newivar']
-        newloglam = inputflux['newloglam']
-    else:
-        if metadata['object'].lower() == 'star':
-            spplate = readspec(slist.plate, mjd=slist.mjd, fiber=slist.fiberid,
-                               align=True)
+    orig_run2d = os.environ.get('RUN2D')
+    orig_run1d = os.environ.get('RUN1D')
+    try:
+        #
+        # Read metadata.
+        #
+        slist, metadata = template_metadata(inputfile)
+        #
+        # Name the output files.
+        #
+        jd = get_juldate()
+        outfile = "spEigen{0}-{1:d}".format(metadata['object'].title(), int(jd - 2400000.5))
+        #
+        # Read the input spectra
+        #
+        if os.path.exists(dumpfile):
+            log.info("Loading data from %s." % (dumpfile,))
+            with open(dumpfile, 'rb') as f:
+                inputflux = pickle.load(f)
+            newflux = inputflux['newflux']
+            newivar = inputflux['newivar']
+            newloglam = inputflux['newloglam']
         else:
-            spplate = readspec(slist.plate, mjd=slist.mjd, fiber=slist.fiberid)
+            if metadata['object'].lower() == 'star':
+                spplate = readspec(slist.plate, mjd=slist.mjd, fiber=slist.fiberid,
+                                   align=True)
+            else:
+                spplate = readspec(slist.plate, mjd=slist.mjd, fiber=slist.fiberid)
+            #
+            # Insist that all of the requested spectra exist.
+            #
+            missing = spplate['plugmap']['FIBERID'] == 0
+            if missing.any():
+                imissing = missing.nonzero()[0]
+                for k in imissing:
+                    log.error("Missing plate=%d mjd=%d fiberid=%d" %
+                              (slist.plate[k], slist.mjd[k], slist.fiberid[k]))
+                raise ValueError("{0:d} missing object(s).".format(missing.sum()))
+            #
+            # Do not fit where the spectrum may be dominated by sky-sub residuals.
+            #
+            objinvvar = skymask(spplate['invvar'], spplate['andmask'],
+                                spplate['ormask'])
+            ifix = spplate['flux']**2 * objinvvar > metadata['snmax']**2
+            if ifix.any():
+                objinvvar[ifix.nonzero()] = (metadata['snmax']/spplate['flux'][ifix.nonzero()])**2
+            #
+            # Set the new wavelength mapping here.  If the binsz keyword is not set,
+            # then bin size is determined from the first spectrum returned by readspec.
+            # This is fine in the case where all spectra have the same bin size
+            # (though their starting wavelengths may differ).  However, this may not
+            # be a safe assumption in the future.
+            #
+            try:
+                objdloglam = float(metadata['binsz'])
+            except (KeyError, ValueError):
+                objdloglam = spplate['loglam'][0, 1] - spplate['loglam'][0, 0]
+            if metadata['object'].lower() == 'star':
+                newloglam = spplate['loglam'][0, :]
+            else:
+                newloglam = wavevector(np.log10(metadata['wavemin']),
+                                       np.log10(metadata['wavemax']), binsz=objdloglam)
+            try:
+                zfit = slist.zfit
+            except AttributeError:
+                zfit = slist.cz/cspeed.to('km / s').value
+            #
+            # Shift to common wavelength grid.
+            #
+            newflux, newivar, newloglam = preprocess_spectra(spplate['flux'],
+                                                             objinvvar,
+                                                             loglam=spplate['loglam'],
+                                                             zfit=zfit,
+                                                             newloglam=newloglam,
+                                                             aesthetics=metadata['aesthetics'],
+                                                             verbose=verbose)
+            #
+            # Dump input fluxes to a file for debugging purposes.
+            #
+            if not os.path.exists(dumpfile):
+                with open(dumpfile, 'wb') as f:
+                    inputflux = {'newflux': newflux, 'newivar': newivar,
+                                 'newloglam': newloglam}
+                    pickle.dump(inputflux, f)
         #
-        # Insist that all of the requested spectra exist.
+        # Solve.
         #
-        missing = spplate['plugmap']['FIBERID'] == 0
-        if missing.any():
-            imissing = missing.nonzero()[0]
-            for k in imissing:
-                log.error("Missing plate=%d mjd=%d fiberid=%d" %
-                          (slist.plate[k], slist.mjd[k], slist.fiberid[k]))
-            raise ValueError("{0:d} missing object(s).".format(missing.sum()))
-        #
-        # Do not fit where the spectrum may be dominated by sky-sub residuals.
-        #
-        objinvvar = skymask(spplate['invvar'], spplate['andmask'],
-                            spplate['ormask'])
-        ifix = spplate['flux']**2 * objinvvar > metadata['snmax']**2
-        if ifix.any():
-            objinvvar[ifix.nonzero()] = (metadata['snmax']/spplate['flux'][ifix.nonzero()])**2
-        #
-        # Set the new wavelength mapping here.  If the binsz keyword is not set,
-        # then bin size is determined from the first spectrum returned by readspec.
-        # This is fine in the case where all spectra have the same bin size
-        # (though their starting wavelengths may differ).  However, this may not
-        # be a safe assumption in the future.
-        #
-        try:
-            objdloglam = float(metadata['binsz'])
-        except (KeyError, ValueError):
-            objdloglam = spplate['loglam'][0, 1] - spplate['loglam'][0, 0]
-        if metadata['object'].lower() == 'star':
-            newloglam = spplate['loglam'][0, :]
+        if metadata['object'].lower() == 'qso':
+            pcaflux = template_qso(metadata, newflux, newivar, verbose)
+        elif metadata['object'].lower() == 'star':
+            pcaflux = template_star(metadata, newloglam, newflux, newivar,
+                                    slist, outfile, verbose)
         else:
-            newloglam = wavevector(np.log10(metadata['wavemin']),
-                                   np.log10(metadata['wavemax']), binsz=objdloglam)
-        try:
-            zfit = slist.zfit
-        except AttributeError:
-            zfit = slist.cz/cspeed.to('km / s').value
+            if metadata['method'].lower() == 'pca':
+                pcaflux = pca_solve(newflux, newivar,
+                                    niter=metadata['niter'],
+                                    nkeep=metadata['nkeep'],
+                                    verbose=verbose)
+            elif metadata['method'].lower() == 'hmf':
+                hmf = HMF(newflux, newivar,
+                          K=metadata['nkeep'],
+                          n_iter=metadata['niter'],
+                          nonnegative=metadata['nonnegative'],
+                          epsilon=metadata['epsilon'],
+                          verbose=verbose)
+                pcaflux = hmf.solve()
+            else:
+                raise ValueError("Unknown method: {0}!".format(metadata['method']))
+        pcaflux['newflux'] = newflux
+        pcaflux['newivar'] = newivar
+        pcaflux['newloglam'] = newloglam
         #
-        # Shift to common wavelength grid.
+        # Fill in bad data with a running median of the good data.
         #
-        newflux, newivar, newloglam = preprocess_spectra(spplate['flux'],
-                                                         objinvvar,
-                                                         loglam=spplate['loglam'],
-                                                         zfit=zfit,
-                                                         newloglam=newloglam,
-                                                         aesthetics=metadata['aesthetics'],
-                                                         verbose=verbose)
+        # Historical note: djs_median() was called with boundary='nearest', which
+        # is very weird, because 'nearest' was never implemented. However, boundary
+        # is ignored for one-dimensional inputs, so it's sloppy code, but not
+        # actually a problem.
         #
-        # Dump input fluxes to a file for debugging purposes.
+        if 'usemask' in pcaflux:
+            qgood = pcaflux['usemask'] >= metadata['minuse']
+            if not qgood.all():
+                medflux = np.zeros(pcaflux['flux'].shape, dtype=pcaflux['flux'].dtype)
+                for i in range(metadata['nkeep']):
+                    medflux[i, qgood] = djs_median(pcaflux['flux'][i, qgood], width=51)
+                    medflux[i, :] = djs_maskinterp(medflux[i, :], ~qgood, const=True)
+                pcaflux['flux'][:, ~qgood] = medflux[:, ~qgood]
         #
-        if not os.path.exists(dumpfile):
-            with open(dumpfile, 'wb') as f:
-                inputflux = {'newflux': newflux, 'newivar': newivar,
-                             'newloglam': newloglam}
-                pickle.dump(inputflux, f)
-    #
-    # Solve.
-    #
-    if metadata['object'].lower() == 'qso':
-        pcaflux = template_qso(metadata, newflux, newivar, verbose)
-    elif metadata['object'].lower() == 'star':
-        pcaflux = template_star(metadata, newloglam, newflux, newivar,
-                                slist, outfile, verbose)
-    else:
-        if metadata['method'].lower() == 'pca':
-            pcaflux = pca_solve(newflux, newivar,
-                                niter=metadata['niter'],
-                                nkeep=metadata['nkeep'],
-                                verbose=verbose)
-        elif metadata['method'].lower() == 'hmf':
-            hmf = HMF(newflux, newivar,
-                      K=metadata['nkeep'],
-                      n_iter=metadata['niter'],
-                      nonnegative=metadata['nonnegative'],
-                      epsilon=metadata['epsilon'],
-                      verbose=verbose)
-            pcaflux = hmf.solve()
-        else:
-            raise ValueError("Unknown method: {0}!".format(metadata['method']))
-    pcaflux['newflux'] = newflux
-    pcaflux['newivar'] = newivar
-    pcaflux['newloglam'] = newloglam
-    #
-    # Fill in bad data with a running median of the good data.
-    #
-    # Historical note: djs_median() was called with boundary='nearest', which
-    # is very weird, because 'nearest' was never implemented. However, boundary
-    # is ignored for one-dimensional inputs, so it's sloppy code, but not
-    # actually a problem.
-    #
-    if 'usemask' in pcaflux:
-        qgood = pcaflux['usemask'] >= metadata['minuse']
-        if not qgood.all():
-            medflux = np.zeros(pcaflux['flux'].shape, dtype=pcaflux['flux'].dtype)
-            for i in range(metadata['nkeep']):
-                medflux[i, qgood] = djs_median(pcaflux['flux'][i, qgood], width=51)
-                medflux[i, :] = djs_maskinterp(medflux[i, :], ~qgood, const=True)
-            pcaflux['flux'][:, ~qgood] = medflux[:, ~qgood]
-    #
-    # Make plots
-    #
-    colorvec = ['k', 'r', 'g', 'b', 'm', 'c']
-    smallfont = FontProperties(size='xx-small')
-    nspectra = pcaflux['newflux'].shape[0]
-    #
-    # Plot input spectra
-    #
-    if flux:
-        nfluxes = 30
-        separation = 5.0
-        nplots = nspectra//nfluxes
-        if nspectra % nfluxes > 0:
-            nplots += 1
-        for k in range(nplots):
-            istart = k*nfluxes
-            iend = min(istart+nfluxes, nspectra) - 1
-            fig, ax = plt.subplots(1, 1, figsize=_default_figsize, dpi=100)
-            for l in range(istart, iend+1):
-                _ = ax.plot(10.0**pcaflux['newloglam'],
-                            pcaflux['newflux'][l, :] + separation*(l % nfluxes),
-                            colorvec[l % len(colorvec)]+'-',
-                            linewidth=1)
-            _ = ax.set_xlabel(r'Wavelength [Å]')
-            _ = ax.set_ylabel(r'Flux [$\mathsf{10^{-17} erg\, cm^{-2} s^{-1} \AA^{-1}}$] + Constant')
-            _ = ax.set_title('Input Spectra {0:04d}-{1:04d}'.format(istart+1, iend+1))
-            _ = ax.set_ylim(pcaflux['newflux'][istart, :].min(), pcaflux['newflux'][iend-1, :].max()+separation*(nfluxes-1))
-            fig.savefig('{0}.flux.{1:04d}-{2:04d}.png'.format(outfile, istart+1, iend+1))
-            plt.close(fig)
-    #
-    # Missing data diagnostic.
-    #
-    fig, ax = plt.subplots(1, 1, figsize=_default_figsize, dpi=100)
-    _ = ax.plot(10.0**pcaflux['newloglam'], (pcaflux['newivar'] == 0).sum(0)/float(nspectra), 'k-')
-    _ = ax.set_xlabel(r'Wavelength [Å]')
-    _ = ax.set_ylabel('Fraction of spectra with missing data')
-    _ = ax.set_title('Missing Data')
-    _ = ax.grid(True)
-    fig.savefig(outfile+'.missing.png')
-    plt.close(fig)
-    #
-    # usemask diagnostic
-    #
-    if 'usemask' in pcaflux:
+        # Make plots
+        #
+        colorvec = ['k', 'r', 'g', 'b', 'm', 'c']
+        smallfont = FontProperties(size='xx-small')
+        nspectra = pcaflux['newflux'].shape[0]
+        #
+        # Plot input spectra
+        #
+        if flux:
+            nfluxes = 30
+            separation = 5.0
+            nplots = nspectra//nfluxes
+            if nspectra % nfluxes > 0:
+                nplots += 1
+            for k in range(nplots):
+                istart = k*nfluxes
+                iend = min(istart+nfluxes, nspectra) - 1
+                fig, ax = plt.subplots(1, 1, figsize=_default_figsize, dpi=100)
+                for l in range(istart, iend+1):
+                    _ = ax.plot(10.0**pcaflux['newloglam'],
+                                pcaflux['newflux'][l, :] + separation*(l % nfluxes),
+                                colorvec[l % len(colorvec)]+'-',
+                                linewidth=1)
+                _ = ax.set_xlabel(r'Wavelength [Å]')
+                _ = ax.set_ylabel(r'Flux [$\mathsf{10^{-17} erg\, cm^{-2} s^{-1} \AA^{-1}}$] + Constant')
+                _ = ax.set_title('Input Spectra {0:04d}-{1:04d}'.format(istart+1, iend+1))
+                _ = ax.set_ylim(pcaflux['newflux'][istart, :].min(), pcaflux['newflux'][iend-1, :].max()+separation*(nfluxes-1))
+                fig.savefig('{0}.flux.{1:04d}-{2:04d}.png'.format(outfile, istart+1, iend+1))
+                plt.close(fig)
+        #
+        # Missing data diagnostic.
+        #
         fig, ax = plt.subplots(1, 1, figsize=_default_figsize, dpi=100)
-        _ = ax.semilogy(10.0**pcaflux['newloglam'][pcaflux['usemask'] > 0],
-                        pcaflux['usemask'][pcaflux['usemask'] > 0], 'k-',
-                        10.0**pcaflux['newloglam'],
-                        np.zeros(pcaflux['newloglam'].shape,
-                        dtype=pcaflux['newloglam'].dtype) + metadata['minuse'],
-                        'k--')
+        _ = ax.plot(10.0**pcaflux['newloglam'], (pcaflux['newivar'] == 0).sum(0)/float(nspectra), 'k-')
         _ = ax.set_xlabel(r'Wavelength [Å]')
-        _ = ax.set_ylabel('Usemask')
-        _ = ax.set_title('UseMask')
+        _ = ax.set_ylabel('Fraction of spectra with missing data')
+        _ = ax.set_title('Missing Data')
         _ = ax.grid(True)
-        fig.savefig(outfile+'.usemask.png')
+        fig.savefig(outfile+'.missing.png')
         plt.close(fig)
-    #
-    # This type of figure isn't really meaningful for stars.
-    #
-    if metadata['object'].lower() != 'star':
-        aratio10 = pcaflux['acoeff'][:, 1]/pcaflux['acoeff'][:, 0]
-        aratio20 = pcaflux['acoeff'][:, 2]/pcaflux['acoeff'][:, 0]
-        aratio30 = pcaflux['acoeff'][:, 3]/pcaflux['acoeff'][:, 0]
-        fig, ax = plt.subplots(1, 1, figsize=_default_figsize, dpi=100)
-        _ = ax.plot(aratio10, aratio20, marker='None', linestyle='None')
-        for k in range(len(aratio10)):
-            _ = ax.text(aratio10[k], aratio20[k],
-                        '{0:04d}-{1:04d}'.format(slist.plate[k], slist.fiberid[k]),
-                        horizontalalignment='center', verticalalignment='center',
-                        color=colorvec[k % len(colorvec)],
-                        fontproperties=smallfont)
-        # _ = ax.set_xlim([aratio10.min(), aratio10.max])
-        # _ = ax.set_xlim([aratio20.min(), aratio20.max])
-        _ = ax.set_xlabel('Eigenvalue Ratio, $a_1/a_0$')
-        _ = ax.set_ylabel('Eigenvalue Ratio, $a_2/a_0$')
-        _ = ax.set_title('Eigenvalue Ratios')
-        fig.savefig(outfile+'.a2_v_a1.png')
-        plt.close(fig)
-        fig, ax = plt.subplots(1, 1, figsize=_default_figsize, dpi=100)
-        _ = ax.plot(aratio20, aratio30, marker='None', linestyle='None')
-        for k in range(len(aratio10)):
-            _ = ax.text(aratio20[k], aratio30[k],
-                        '{0:04d}-{1:04d}'.format(slist.plate[k], slist.fiberid[k]),
-                        horizontalalignment='center', verticalalignment='center',
-                        color=colorvec[k % len(colorvec)],
-                        fontproperties=smallfont)
-        # _ = ax.set_xlim([aratio10.min(), aratio10.max])
-        # _ = ax.set_xlim([aratio20.min(), aratio20.max])
-        _ = ax.set_xlabel('Eigenvalue Ratio, $a_2/a_0$')
-        _ = ax.set_ylabel('Eigenvalue Ratio, $a_3/a_0$')
-        _ = ax.set_title('Eigenvalue Ratios')
-        fig.savefig(outfile+'.a3_v_a2.png')
-        plt.close(fig)
-    #
-    # Save output to FITS file.
-    #
-    if os.path.exists(outfile+'.fits'):
-        os.remove(outfile+'.fits')
-    hdu0 = fits.PrimaryHDU(pcaflux['flux'])
-    objtypes = {'gal': 'GALAXY', 'qso': 'QSO', 'star': 'STAR'}
-    if not pydl_version:
-        pydl_version = 'git'
-    hdu0.header['EXTNAME'] = ('EIGENSPECTRA', 'extension name')
-    hdu0.header['LONGSTRN'] = ('OGIP 1.0', 'The OGIP Long String Convention may be used.')
-    hdu0.header['OBJECT'] = (objtypes[metadata['object']], 'Type of template')
-    hdu0.header['COEFF0'] = (pcaflux['newloglam'][0], 'Wavelength zeropoint')
-    hdu0.header['COEFF1'] = (pcaflux['newloglam'][1]-pcaflux['newloglam'][0], 'Delta wavelength')
-    #
-    # WCS
-    #
-    hdu0.header['WCSAXES'] = (1, 'Number of coordinate axes')
-    hdu0.header['CRPIX1'] = (1.0, 'Pixel coordinate of reference point')
-    hdu0.header['CTYPE1'] = ('WAVE-LOG', 'Wavelength in vacuuo, logarithmic axis')
-    hdu0.header['CRVAL1'] = (10**pcaflux['newloglam'][0], '[Angstrom] Coordinate value at reference point')
-    hdu0.header['CDELT1'] = ((10**pcaflux['newloglam'][0]) * (pcaflux['newloglam'][1]-pcaflux['newloglam'][0]) * np.log(10), '[Angstrom] Coordinate increment at reference point')
-    hdu0.header['CUNIT1'] = ('Angstrom', 'Units of coordinate increment and value')
-    #
-    # Metadata
-    #
-    hdu0.header['IDLUTILS'] = ('pydl-{0}'.format(pydl_version), 'Version of idlutils')
-    hdu0.header['SPEC2D'] = ('pydl-{0}'.format(pydl_version), 'Version of idlspec2d')
-    hdu0.header['RUN2D'] = (os.environ['RUN2D'], 'Version of 2d reduction')
-    hdu0.header['RUN1D'] = (os.environ['RUN1D'], 'Version of 1d reduction')
-    hdu0.header['FILENAME'] = (inputfile, 'Input file')
-    hdu0.header['METHOD'] = (metadata['method'].upper(), 'Method used')
-    if metadata['method'].lower() == 'hmf':
-        hdu0.header['NONNEG'] = (metadata['nonnegative'], 'Was nonnegative HMF used?')
-        hdu0.header['EPSILON'] = (metadata['epsilon'], 'Regularization parameter used.')
-    hdu0.add_checksum()
-    c = [fits.Column(name='plate', format='J', array=slist.plate),
-         fits.Column(name='mjd', format='J', array=slist.mjd),
-         fits.Column(name='fiberid', format='J', array=slist.fiberid)]
-    if metadata['object'].lower() == 'star':
-        c.append(fits.Column(name='cz', format='D', unit='km/s',
-                 array=slist.cz))
-        for i, name in enumerate(pcaflux['namearr']):
-            hdu0.header['NAME{0:d}'.format(i)] = (name, 'Name of class {0:d}.'.format(i))
-    else:
-        c.append(fits.Column(name='zfit', format='D', array=slist.zfit))
-    hdu1 = fits.BinTableHDU.from_columns(fits.ColDefs(c), name='INPUT_SPECTRA')
-    hdu1.add_checksum()
-    hdulist = fits.HDUList([hdu0, hdu1])
-    hdulist.writeto(outfile+'.fits', overwrite=True)
-    if metadata['object'].lower() != 'star':
-        plot_eig(outfile+'.fits')
-    #
-    # Clean up
-    #
-    for r in ('run2d', 'run1d'):
-        if metadata['orig_'+r] is None:
-            del os.environ[r.upper()]
+        #
+        # usemask diagnostic
+        #
+        if 'usemask' in pcaflux:
+            fig, ax = plt.subplots(1, 1, figsize=_default_figsize, dpi=100)
+            _ = ax.semilogy(10.0**pcaflux['newloglam'][pcaflux['usemask'] > 0],
+                            pcaflux['usemask'][pcaflux['usemask'] > 0], 'k-',
+                            10.0**pcaflux['newloglam'],
+                            np.zeros(pcaflux['newloglam'].shape,
+                            dtype=pcaflux['newloglam'].dtype) + metadata['minuse'],
+                            'k--')
+            _ = ax.set_xlabel(r'Wavelength [Å]')
+            _ = ax.set_ylabel('Usemask')
+            _ = ax.set_title('UseMask')
+            _ = ax.grid(True)
+            fig.savefig(outfile+'.usemask.png')
+            plt.close(fig)
+        #
+        # This type of figure isn't really meaningful for stars.
+        #
+        if metadata['object'].lower() != 'star':
+            aratio10 = pcaflux['acoeff'][:, 1]/pcaflux['acoeff'][:, 0]
+            aratio20 = pcaflux['acoeff'][:, 2]/pcaflux['acoeff'][:, 0]
+            aratio30 = pcaflux['acoeff'][:, 3]/pcaflux['acoeff'][:, 0]
+            fig, ax = plt.subplots(1, 1, figsize=_default_figsize, dpi=100)
+            _ = ax.plot(aratio10, aratio20, marker='None', linestyle='None')
+            for k in range(len(aratio10)):
+                _ = ax.text(aratio10[k], aratio20[k],
+                            '{0:04d}-{1:04d}'.format(slist.plate[k], slist.fiberid[k]),
+                            horizontalalignment='center', verticalalignment='center',
+                            color=colorvec[k % len(colorvec)],
+                            fontproperties=smallfont)
+            # _ = ax.set_xlim([aratio10.min(), aratio10.max])
+            # _ = ax.set_xlim([aratio20.min(), aratio20.max])
+            _ = ax.set_xlabel('Eigenvalue Ratio, $a_1/a_0$')
+            _ = ax.set_ylabel('Eigenvalue Ratio, $a_2/a_0$')
+            _ = ax.set_title('Eigenvalue Ratios')
+            fig.savefig(outfile+'.a2_v_a1.png')
+            plt.close(fig)
+            fig, ax = plt.subplots(1, 1, figsize=_default_figsize, dpi=100)
+            _ = ax.plot(aratio20, aratio30, marker='None', linestyle='None')
+            for k in range(len(aratio10)):
+                _ = ax.text(aratio20[k], aratio30[k],
+                            '{0:04d}-{1:04d}'.format(slist.plate[k], slist.fiberid[k]),
+                            horizontalalignment='center', verticalalignment='center',
+                            color=colorvec[k % len(colorvec)],
+                            fontproperties=smallfont)
+            # _ = ax.set_xlim([aratio10.min(), aratio10.max])
+            # _ = ax.set_xlim([aratio20.min(), aratio20.max])
+            _ = ax.set_xlabel('Eigenvalue Ratio, $a_2/a_0$')
+            _ = ax.set_ylabel('Eigenvalue Ratio, $a_3/a_0$')
+            _ = ax.set_title('Eigenvalue Ratios')
+            fig.savefig(outfile+'.a3_v_a2.png')
+            plt.close(fig)
+        #
+        # Save output to FITS file.
+        #
+        if os.path.exists(outfile+'.fits'):
+            os.remove(outfile+'.fits')
+        hdu0 = fits.PrimaryHDU(pcaflux['flux'])
+        objtypes = {'gal': 'GALAXY', 'qso': 'QSO', 'star': 'STAR'}
+        if not pydl_version:
+            pydl_version = 'git'
+        hdu0.header['EXTNAME'] = ('EIGENSPECTRA', 'extension name')
+        hdu0.header['LONGSTRN'] = ('OGIP 1.0', 'The OGIP Long String Convention may be used.')
+        hdu0.header['OBJECT'] = (objtypes[metadata['object']], 'Type of template')
+        hdu0.header['COEFF0'] = (pcaflux['newloglam'][0], 'Wavelength zeropoint')
+        hdu0.header['COEFF1'] = (pcaflux['newloglam'][1]-pcaflux['newloglam'][0], 'Delta wavelength')
+        #
+        # WCS
+        #
+        hdu0.header['WCSAXES'] = (1, 'Number of coordinate axes')
+        hdu0.header['CRPIX1'] = (1.0, 'Pixel coordinate of reference point')
+        hdu0.header['CTYPE1'] = ('WAVE-LOG', 'Wavelength in vacuuo, logarithmic axis')
+        hdu0.header['CRVAL1'] = (10**pcaflux['newloglam'][0], '[Angstrom] Coordinate value at reference point')
+        hdu0.header['CDELT1'] = ((10**pcaflux['newloglam'][0]) * (pcaflux['newloglam'][1]-pcaflux['newloglam'][0]) * np.log(10), '[Angstrom] Coordinate increment at reference point')
+        hdu0.header['CUNIT1'] = ('Angstrom', 'Units of coordinate increment and value')
+        #
+        # Metadata
+        #
+        hdu0.header['IDLUTILS'] = ('pydl-{0}'.format(pydl_version), 'Version of idlutils')
+        hdu0.header['SPEC2D'] = ('pydl-{0}'.format(pydl_version), 'Version of idlspec2d')
+        hdu0.header['RUN2D'] = (os.environ['RUN2D'], 'Version of 2d reduction')
+        hdu0.header['RUN1D'] = (os.environ['RUN1D'], 'Version of 1d reduction')
+        hdu0.header['FILENAME'] = (inputfile, 'Input file')
+        hdu0.header['METHOD'] = (metadata['method'].upper(), 'Method used')
+        if metadata['method'].lower() == 'hmf':
+            hdu0.header['NONNEG'] = (metadata['nonnegative'], 'Was nonnegative HMF used?')
+            hdu0.header['EPSILON'] = (metadata['epsilon'], 'Regularization parameter used.')
+        hdu0.add_checksum()
+        c = [fits.Column(name='plate', format='J', array=slist.plate),
+             fits.Column(name='mjd', format='J', array=slist.mjd),
+             fits.Column(name='fiberid', format='J', array=slist.fiberid)]
+        if metadata['object'].lower() == 'star':
+            c.append(fits.Column(name='cz', format='D', unit='km/s',
+                     array=slist.cz))
+            for i, name in enumerate(pcaflux['namearr']):
+                hdu0.header['NAME{0:d}'.format(i)] = (name, 'Name of class {0:d}.'.format(i))
         else:
-            os.environ[r.upper()] = metadata['orig_'+r]
+            c.append(fits.Column(name='zfit', format='D', array=slist.zfit))
+        hdu1 = fits.BinTableHDU.from_columns(fits.ColDefs(c), name='INPUT_SPECTRA')
+        hdu1.add_checksum()
+        hdulist = fits.HDUList([hdu0, hdu1])
+        hdulist.writeto(outfile+'.fits', overwrite=True)
+        if metadata['object'].lower() != 'star':
+            plot_eig(outfile+'.fits')
+    finally:
+        #
+        # Clean up
+        #
+        for name, value in (('RUN2D', orig_run2d), ('RUN1D', orig_run1d)):
+            if value is None:
+                os.environ.pop(name, None)
+            else:
+                os.environ[name] = value
     return
 
 
